@@ -384,13 +384,68 @@ def r4_nothing_outside_array(ctx):
 
 
 
+def r5_append_writes_every_entry(ctx):
+    """one array element per call entry: BatchResponseBuilder::append either refuses (Err) or writes the entry's json into
+    the array exactly once - there is no accepted-but-not-written path (RpcService::batch counts on it: an empty builder
+    means 'no call was seen')"""
+    F, R = ctx.F, ctx.R
+    tr0 = ctx.tracer(follow_callers=False, follow_fields=False)
+    ap = F.one(r"^jsonrpsee_core::server::method_response::BatchResponseBuilder::append$")
+    R.fn(ap)
+    ps = ap.calls_to(r"^std::string::String::push_str$")
+    oks = [bi for bi, blk in enumerate(ap.blocks) if bi in ap.reachable for st in blk["st"] if st["s"] == "assign" and st["pl"]["l"] == 0 and not st["pl"].get("p") and st["rv"]["k"] == "agg" and st["rv"].get("variant") == "Ok"]
+    if not ps or not oks:
+        raise AnchorLost("push_str / Ok(..) in BatchResponseBuilder::append")
+    w = {}
+    for c in ps:
+        w[c.bb] = w.get(c.bb, 0) + 1
+    pc = flow.path_counts(ap, 0, w, stop=set(oks))
+    R.paths_enumerated += 1
+    R.check(pc == (1, 1), "C02.R5", "append:accepted-entry-written-once", "every path on which append accepts an entry writes it into the array once", "BatchResponseBuilder::append can accept an entry and write it %s times: an entry's reply is missing from the array (or repeated) and RpcService::batch's `empty builder = no call` test is wrong" % (pc,), "%s:%d" % (ap.file, ap.lo))
+    for c in ps:
+        lv = tr0.origins(ap, c.args[1])
+        okj = any(l.kind == "call" and re.search(r"RawValue::get$", l.detail["callee"] or "") for l in lv) or any(l.kind == "field" and l.detail["fields"][-1][1] == "json" for l in lv)
+        R.check(okj, "C02.R5", "append:writes-the-entry", "what is written is the entry's own json", "append writes %s" % [flow.leaf_str(l) for l in lv], where(c))
+
+
+def r6_batch_container_is_inert(ctx):
+    """the Batch container carries its entries unchanged from handle_rpc_call to RpcService::batch: its own methods never
+    reach into an entry mutably (no iter_mut / extensions_mut / mem::take / removal on `inner`), so that an entry executed
+    as part of a batch is the entry that was parsed - same params, same extensions - and answers as it would alone"""
+    F, R = ctx.F, ctx.R
+    MUT = (r"slice::<impl \[T\]>::iter_mut$|Vec::<.*>::(iter_mut|drain|retain|retain_mut|remove|swap_remove|clear|truncate|pop|get_mut|first_mut|last_mut|split_off|dedup\w*)$|"
+           r"IntoIterator>::into_iter$|(BatchEntry|Request|Notification)::<.*>::extensions_mut$|^std::mem::(take|replace|swap)$|IndexMut.*::index_mut$")
+    n = 0
+    for b in F.real_bodies():
+        if not re.search(r"^(<)?jsonrpsee_core::middleware::Batch(::<'a>|<'a>)", b.path) or is_test_body(b):
+            continue
+        last = b.path.split("::")[-1]
+        n += 1
+        R.fn(b)
+        if last in ("iter_mut", "into_iter"):
+            # the two public accessors that *return* (mutable / owning) iterators over the entries
+            continue
+        bad = []
+        for c in b.calls_to(MUT):
+            nm = c.name() or ""
+            if nm.endswith("into_iter"):
+                # `for e in &mut self.inner` / `self.inner.iter_mut()` desugar here; only &mut / by-value receivers count
+                p0 = op_place(c.args[0]) if c.args else None
+                ty0 = b.locals[p0["l"]]["ty"] if p0 is not None else ""
+                if not (ty0.startswith("&mut ") or ty0.startswith("std::vec::Vec<")) or "BatchEntry" not in ty0:
+                    continue
+            bad.append(c)
+        R.check(not bad, "C02.R6", "batch-container:%s" % fkey(b), "%s does not alter the entries" % short(b.path), "%s reaches into the batch's entries mutably (%s): an entry executed from a batch then differs from the same entry sent alone (e.g. it loses its extensions)" % (short(b.path), sorted({short(c.name() or "") for c in bad})), where(bad[0]) if bad else "%s:%d" % (b.file, b.lo))
+    R.floor("C02.R6", n, 8, "methods of middleware::Batch")
+
+
 def rcfg_config_verbatim(ctx):
     """the configured `batch_requests_config` reaches the ServerConfig unchanged (setter stores its argument, build()/Clone copy it)"""
     from .common import config_field_integrity
     config_field_integrity(ctx, "C02.CFG", "batch_requests_config")
 
 
-RULES = [r1_gate_before_work, r2_classifier_agreement, r3_append_discipline, r4_nothing_outside_array, rcfg_config_verbatim]
+RULES = [r1_gate_before_work, r2_classifier_agreement, r3_append_discipline, r4_nothing_outside_array, r5_append_writes_every_entry, r6_batch_container_is_inert, rcfg_config_verbatim]
 
 LEVEL_TEXT = (
     "Structural necessary conditions of batch handling decided from the type-checked program: the gates that must precede "
